@@ -221,42 +221,56 @@ Inductive bexpr :=
 Definition ser (j : json) : json := JObj [("ser", j)].
 Definition is_null (j : json) : bool := match j with JNull => true | _ => false end.
 
+(* map with failure *)
+Fixpoint omap {X Y} (f : X -> option Y) (l : list X) : option (list Y) :=
+  match l with
+  | [] => Some []
+  | x :: r => match f x, omap f r with Some a, Some b => Some (a :: b) | _, _ => None end
+  end.
+
 (* custom_arguments._generate_serialize_expr (fix 3032a3a): serialize() once per occurrence, lists item
    by item; `x if x is not None else None` around nullable positions and around the argument itself
-   (depth 0); a NON-NULL item position is NOT guarded.  A non-list value at a list type is outside the
-   harness' inputs (Python would iterate it); the model leaves it unchanged. *)
-Definition guardn (v e : json) : json := if is_null v then JNull else e.
-Definition lst (f : json -> json) (v : json) : json :=
-  match v with JArr l => JArr (map f l) | _ => v end.
-Fixpoint ser_t (top : bool) (t : gtype) (v : json) {struct t} : json :=
+   (depth 0); a NON-NULL item position is NOT guarded.  None = the Python expression raises
+   (`for _item in <not a list>`: TypeError; the harness' JSON values make every non-array non-iterable
+   except strings, which it never passes at a list type). *)
+Definition guardo (v : json) (e : option json) : option json := if is_null v then Some JNull else e.
+Definition lst (f : json -> option json) (v : json) : option json :=
+  match v with JArr l => option_map JArr (omap f l) | _ => None end.
+Fixpoint ser_t (top : bool) (t : gtype) (v : json) {struct t} : option json :=
   match t with
-  | TNamed _ => guardn v (ser v)
-  | TList it => guardn v (lst (ser_t false it) v)
+  | TNamed _ => guardo v (Some (ser v))
+  | TList it => guardo v (lst (ser_t false it) v)
   | TNonNull t' =>
       let e := match t' with
                | TList it => lst (ser_t false it) v
-               | _ => ser v end in
-      if top then guardn v e else e
+               | _ => Some (ser v) end in
+      if top then guardo v e else e
   end.
 (* specification: null stays null wherever it stands; every other occurrence of the scalar is
    serialised exactly once, lists element-wise *)
+Definition guardn (v e : json) : json := if is_null v then JNull else e.
+Definition lsts (f : json -> json) (v : json) : json :=
+  match v with JArr l => JArr (map f l) | _ => v end.
 Fixpoint ser_spec (t : gtype) (v : json) {struct t} : json :=
   guardn v (match t with
             | TNamed _ => ser v
-            | TList it => lst (ser_spec it) v
+            | TList it => lsts (ser_spec it) v
             | TNonNull t' => match t' with
-                             | TList it => lst (ser_spec it) v
+                             | TList it => lsts (ser_spec it) v
                              | _ => ser v end
             end).
-(* the caller's value has no None at a non-null ITEM position (there the generated code calls
-   serialize(None); the schema forbids such a value anyway) *)
+(* the caller's value is a value of the argument's type, as far as the serialize expression looks:
+   arrays (or None where nullable) at list positions, no None at a non-null ITEM position *)
 Fixpoint nn_ok (top : bool) (t : gtype) (v : json) {struct t} : bool :=
-  let items (it : gtype) := match v with JArr l => forallb (nn_ok false it) l | _ => true end in
+  let items (it : gtype) := match v with JArr l => forallb (nn_ok false it) l | _ => false end in
   match t with
   | TNamed _ => true
-  | TList it => items it
-  | TNonNull t' => (top || negb (is_null v)) &&
-                   match t' with TList it => items it | _ => true end
+  | TList it => is_null v || items it
+  | TNonNull t' =>
+      match t' with
+      | TList it => (top && is_null v) || items it
+      | _ => top || negb (is_null v)
+      end
   end.
 (* shape of the generated expression, for K1: G = None guard, L = list comprehension, S = serialize call *)
 Fixpoint ser_shape (top : bool) (t : gtype) {struct t} : string :=
@@ -278,9 +292,12 @@ Fixpoint call_vars (ams : list argmeta) (args : list (string * json)) : option (
              | None => if am_required am then None (* TypeError: missing positional *) else Some JNull
              end), call_vars r args with
       | Some v, Some vs =>
-          let v' := if am_ser am then ser_t true (am_ty am) v else v in
-          Some (if is_null v' then vs
-                else {| v_name := am_gql am; v_type := am_type am; v_value := v' |} :: vs)
+          match (if am_ser am then ser_t true (am_ty am) v else Some v) with
+          | Some v' =>
+              Some (if is_null v' then vs
+                    else {| v_name := am_gql am; v_type := am_type am; v_value := v' |} :: vs)
+          | None => None       (* the serialize expression raised *)
+          end
       | _, _ => None
       end
   end.
@@ -598,13 +615,6 @@ Fixpoint ideals (l : list bexpr) : option (list node) :=
   end.
 End Ideal.
 
-(* map with failure *)
-Fixpoint omap {X Y} (f : X -> option Y) (l : list X) : option (list Y) :=
-  match l with
-  | [] => Some []
-  | x :: r => match f x, omap f r with Some a, Some b => Some (a :: b) | _, _ => None end
-  end.
-
 (* the selection an (ideal, sharing-free) object tree stands for, arguments carrying [pj var] *)
 Fixpoint node_sel {A} (pj : var -> A) (fuel : nat) (n : node) : option (sel A) :=
   match fuel with
@@ -878,6 +888,8 @@ Definition run_builder (e : sexp) : sexp :=
       match d_world w, dList (dList (d_bexpr 32)) h with
       | Some ct, Some hist => L (run_ops ct (store0 ct) hist)
       | _, _ => sErr "builder: bad ops" end
+  | L [A "suffixes"] =>
+      L [A (class_suffix KObj); A (class_suffix KIface); A (class_suffix KUnion); A (class_suffix KLeaf)]
   | L [A "fmtname"; i; A v; used] =>
       match dNat i, dList dStr used with
       | Some i', Some u => sOpt s_str (format_variable_name i' v u)
